@@ -3,6 +3,7 @@ Theorems: coq/Props/C05.v.  Streams: G-expr (structured trees printed minimally 
 plus mutants), lexer stream; implementation (expr::parse + Expr::eval, syntax::decide_next_token) vs the
 extracted model (code algorithms) vs the extracted mathematical semantics (Spec.Sem)."""
 import os, glob
+import re
 import vlib
 
 RULE = ("G-expr: random expression trees to depth 6 over every operator / literal form / builtin, operands from 0 to >128 bits, "
@@ -415,7 +416,12 @@ def run(chk):
         body = g.r.choice(["\\u{%s}" % digs, "x\\u{%s}y" % digs, "\\u{%s" % digs, "\\u%s}" % digs, "\\u{d800}", "\\u{dfff}", "\\u{110000}",
                            "\\u{10ffff}", "\\x4", "\\x4g", "\\q", "\\", "\\u{ %s}" % digs, "\\U{41}"])
         enc = g.r.choice(["", "", "utf8", "utf16be", "utf32le", "ascii"])
-        texts.append(('%s("%s")' % (enc, body)) if enc else '"%s"' % body); intent.append(None)
+        texts.append(('%s("%s")' % (enc, body)) if enc else '"%s"' % body)
+        # spec for the clear cases: a closed \u{..} escape with more than six digits, a surrogate or a value above 0x10ffff
+        # names no character: an error, never a made-up value
+        m_ = re.search(r"\\u\{([0-9a-fA-F]*)\}", body)
+        bad = m_ is not None and (len(m_.group(1)) > 6 or (m_.group(1) != "" and (0xd800 <= int(m_.group(1), 16) <= 0xdfff or int(m_.group(1), 16) > 0x10ffff)))
+        intent.append(("MUSTERR",) if bad else None)
         dist["mutant"] += 1
     # directed: division and remainder truncate toward zero for every sign combination, small and multi-word operands,
     # divisors that are powers of two (where a shift would floor instead) and others
@@ -477,7 +483,11 @@ def run(chk):
             outcome["value"] += 1
         it = intent[i]
         rep = {"kind": "expr", "source": s, "impl": impl[i], "model": mod[i]}
-        if it is not None:
+        if it is not None and it[0] == "MUSTERR":
+            if a[0] != "PERR" and a[1] != "ERR":
+                chk.violation("string literal %r holds an escape that names no character (over-long, surrogate or above 0x10ffff) and is given a value: %s" % (s, a[1][:80]), rep)
+                continue
+        elif it is not None:
             want = "OK %s @%d" % (it[0], len(s.encode("utf-8")))
             if it[1] >= 2:
                 chk.nontriv(s)
